@@ -156,7 +156,7 @@ pub fn run(ctx: &Arc<Ctx>) {
     refmodels::selftest::run(&["sm3", "sm9"]).unwrap_or_else(|e| ctx.machinery_error(format!("reference self-test failed: {}", e)));
     let n = sm9::params().n.clone();
     let nm1 = &n - 1u32;
-    ctx.set_rule("Ha = q(N-1)+r as 40 bytes for q in {0,1,2,3, 2^k-1, 2^k, 2^k+1 (k=8..64 step 8), q_max-2..q_max, seeded} x r in {0,1,2,3,5,2^64,2^128,2^192,N-3,N-2,seeded} plus limb-pattern values (all-ones limbs) through the public mod_n_from_hash; H1 for every identity length 0..=300 (thorough 2100) x hid {1,2,3} x {zeros, seeded} and for 12 normalisation-sensitive identities (white space, line ends, NUL, case, trailing hid byte); H2 over message/w lengths {0,1,55,56,384,1024}; key extraction for master keys {1,2,N-2,Annex ks,Annex ke,seeded} x identities {Alice,Bob,'',300 bytes,seeded} x {sign,enc,exch}; master keys crafted so that H1+k = 0, +1, -1 mod N and so that the integer H1+k is 2^256+{-2..2} (carry out of 256 bits) or N+{-2..2}. Oracle: (Ha mod (N-1))+1 and [k (H1+k)^-1]P by big integers.");
+    ctx.set_rule("Ha = q(N-1)+r as 40 bytes for q in {0,1,2,3, 2^k-1, 2^k, 2^k+1 (k=8..64 step 8), q_max-2..q_max, seeded} x r in {0,1,2,3,5,2^64,2^128,2^192,N-3,N-2,seeded} plus limb-pattern values (all-ones limbs) through the public mod_n_from_hash; H1 for every identity length 0..=300 (thorough 2100) x hid {1,2,3} x {zeros, seeded} and for 12 normalisation-sensitive identities (white space, line ends, NUL, case, trailing hid byte); H2 over message/w lengths {0,1,55,56,384,1024} and every message length 0..=300 (thorough 1200) with a 384-byte w; key extraction for master keys {1,2,N-2,Annex ks,Annex ke,seeded} x identities {Alice,Bob,'',300 bytes,seeded} x {sign,enc,exch}; master keys crafted so that H1+k = 0, +1, -1 mod N and so that the integer H1+k is 2^256+{-2..2} (carry out of 256 bits) or N+{-2..2}. Oracle: (Ha mod (N-1))+1 and [k (H1+k)^-1]P by big integers.");
     let mut g = SplitMix::new(ctx.seed, "c16");
     let mut cases: Vec<Case> = Vec::new();
     let two320: BigUint = BigUint::one() << 320usize;
@@ -219,6 +219,9 @@ pub fn run(ctx: &Arc<Ctx>) {
         for hid in [1u8, 2, 3] {
             cases.push(Case::H1 { id_len: id.len(), id_class: format!("hex:{}", hex::encode(id.as_bytes())), hid });
         }
+    }
+    for ml in 0..=ctx.tier.pick(300usize, 1200) {
+        cases.push(Case::H2 { msg_len: ml, w_len: 384 });
     }
     for ml in [0usize, 1, 55, 56, 384, 1024] {
         for wl in [0usize, 1, 55, 56, 384, 1024] {
